@@ -36,11 +36,15 @@ ASSUMPTIONS = ["user functions deterministic", "zarr storages out of scope (cann
 
 
 def registry():
-    return {c.short: c for c in cs.ALL + cm.ALL}
+    from contracts import run
+    allc = cs.ALL + cm.ALL + run.ALL
+    return {**{c.short: c for c in allc}, **{c.name: c for c in allc}}
 
 
 def proof_items():
+    from contracts import run
     from props.C07 import _call_nk, _nk_gen
+    from props.C08 import _okey_gen
     return [
         ProofItem(cm.shape_to_strides, bounds={"ints": (0, 1, 2, 3), "maxlen": 3}),
         ProofItem(cm.shape_to_key, bounds={"ints": (0, 1, 2, 3, 5), "maxlen": 3, "per_len": 60}),
@@ -48,6 +52,10 @@ def proof_items():
         ProofItem(cs.external_shape_from_mask, bounds={"ints": (0, 1, 2), "maxlen": 3}),
         ProofItem(cs.internal_shape_from_mask, bounds={"ints": (0, 1, 2), "maxlen": 3}),
         ProofItem(cs.normalize_key, gen=_nk_gen, call=_call_nk),
+        # the denotation's index maps: which input elements call l receives, and where its outputs are stored
+        ProofItem(cm.mapspec_input_keys, gen=_okey_gen),
+        ProofItem(cm.mapspec_output_key, gen=_okey_gen),
+        ProofItem(run.update_array, gen=run.gen),
     ]
 
 
